@@ -37,7 +37,8 @@ Inductive goval :=
 
 Inductive robj :=
 | RNil | RBool (b : bool) | RInt (z : Z) | RByte (n : Z) | RFloat (bits : N) | RStr (s : str) | RTime (t : Z)
-| RList (l : list robj) | RMap (m : list (str * robj)) | RBytes (l : list Z) | RFloats (l : list N)
+| RList (l : list robj) | RMap (m : list (str * robj))
+| RBytes (isnil : bool) (l : list Z) | RFloats (isnil : bool) (l : list N)   (* wrap the Go slice itself: a nil slice stays nil *)
 | RProxy (t : gotype) (cell : nat) (path : list nat)     (* wraps a pointer into the Go heap (aliases Go memory) *)
 | RProxyNil (t : gotype)                                  (* wraps a nil struct pointer *)
 | RProxyOwn (t : gotype) (v : goval).                     (* wraps a pointer to a private COPY of a struct value *)
@@ -101,7 +102,9 @@ Definition is_f32 (b : N) : bool :=
 
 (* ---------- types ---------- *)
 Definition under (t : gotype) : gotype := match t with TNamed _ u => u | _ => t end.
-Definition is_named (t : gotype) : bool := match t with TNamed _ _ | TStruct _ _ | TTime => true | _ => false end.
+(* Go's "named (defined) type": the predeclared scalar types are named types too; type literals are not *)
+Definition is_named (t : gotype) : bool :=
+  match t with TPtr _ | TSlice _ | TArray _ _ | TMap _ | TIface => false | _ => true end.
 (* kinds served by the kind table of getTypeConverter (assertion on the unnamed type in From) *)
 Definition scalar_kind (t : gotype) : bool :=
   match under t with TBool | TInt _ | TFloat32 | TFloat64 | TString => true | _ => false end.
@@ -218,8 +221,9 @@ Fixpoint from_go (direct : bool) (t : gotype) (v : goval) {struct v} : res robj 
         | TArray _ et, GArray l => do os <- elems et l ;; Ok (RList os)
         | TMap et, GMap m => do os <- entries et m ;; Ok (RMap os)
         | TMap _, GNil => Ok (RMap [])
-        | TPtr (TStruct _ _), GRef c p => Ok (RProxy u c p)
-        | TPtr (TStruct _ _), GNil => Ok (RProxyNil u)
+        | TPtr (TStruct _ _), GRef c p | TPtr TTime, GRef c p => Ok (RProxy t c p)
+        | TPtr (TStruct _ _), GNil | TPtr TTime, GNil => Ok (RProxyNil t)
+        | TPtr (TStruct _ _), GBox x | TPtr TTime, GBox x => Ok (RProxyOwn t x)
         | TPtr pt, GNil => Ok RNil
         | TPtr pt, GBox x => from_go false pt x
         | _, _ => Panic
@@ -228,14 +232,14 @@ Fixpoint from_go (direct : bool) (t : gotype) (v : goval) {struct v} : res robj 
   | TTime => match v with GTime z => Ok (RTime z) | _ => Panic end
   | TSlice (TInt KUint8) =>                                 (* []byte is in the type table *)
       match v with
-      | GSlice l => match all_bytes l with Some bs => Ok (RBytes bs) | None => Panic end
-      | GNil => Ok (RBytes [])
+      | GSlice l => match all_bytes l with Some bs => Ok (RBytes false bs) | None => Panic end
+      | GNil => Ok (RBytes true [])
       | _ => Panic
       end
   | TSlice TFloat64 =>                                      (* []float64 is in the type table *)
       match v with
-      | GSlice l => match all_floats l with Some fs => Ok (RFloats fs) | None => Panic end
-      | GNil => Ok (RFloats [])
+      | GSlice l => match all_floats l with Some fs => Ok (RFloats false fs) | None => Panic end
+      | GNil => Ok (RFloats true [])
       | _ => Panic
       end
   | TSlice et =>
@@ -251,10 +255,11 @@ Fixpoint from_go (direct : bool) (t : gotype) (v : goval) {struct v} : res robj 
       | GNil => Ok (RMap [])
       | _ => Panic
       end
-  | TPtr (TStruct _ _) =>                                   (* pointer to struct: a proxy around the pointer itself *)
+  | TPtr (TStruct _ _) | TPtr TTime =>                      (* pointer to struct (time.Time is one): a proxy around the pointer *)
       match v with
       | GRef c p => Ok (RProxy t c p)
       | GNil => Ok (RProxyNil t)
+      | GBox x => Ok (RProxyOwn t x)                         (* a pointee that lives outside the modelled heap cells *)
       | _ => Panic
       end
   | TPtr pt =>
@@ -276,8 +281,8 @@ Fixpoint from_go (direct : bool) (t : gotype) (v : goval) {struct v} : res robj 
 (* a struct FIELD of struct type is read through the address of the field: the proxy aliases the parent *)
 Definition from_field (ft : gotype) (v : goval) (cell : nat) (path : list nat) : res robj :=
   match ft with
-  | TStruct _ _ => Ok (RProxy (TPtr ft) cell path)
-  | TPtr (TStruct _ _) =>
+  | TStruct _ _ | TTime => Ok (RProxy (TPtr ft) cell path)
+  | TPtr (TStruct _ _) | TPtr TTime =>
       match v with
       | GBox _ => Ok (RProxy ft cell path)        (* the pointee lives inline: its address is this path *)
       | _ => from_go true ft v
@@ -297,8 +302,8 @@ Fixpoint iface_of (o : robj) : goval :=
   | RTime z => GDyn TTime (GTime z)
   | RList l => GDyn (TSlice TIface) (GSlice (map iface_of l))
   | RMap m => GDyn (TMap TIface) (GMap (map (fun kv => (fst kv, iface_of (snd kv))) m))
-  | RBytes l => GDyn (TSlice (TInt KUint8)) (GSlice (map GInt l))
-  | RFloats l => GDyn (TSlice TFloat64) (GSlice (map GFloat l))
+  | RBytes isnil l => GDyn (TSlice (TInt KUint8)) (if isnil then GNil else GSlice (map GInt l))
+  | RFloats isnil l => GDyn (TSlice TFloat64) (if isnil then GNil else GSlice (map GFloat l))
   | RProxy t c p => GDyn t (GRef c p)
   | RProxyNil t => GDyn t GNil
   | RProxyOwn t v => GDyn t (GBox v)                         (* pointer to the private copy *)
@@ -403,20 +408,20 @@ Section To.
       | TString =>
           match o with
           | RStr s => Ok (Some (TString, GStr s))
-          | RBytes l => Ok (Some (TString, GStr (map Z.to_N l)))
+          | RBytes _ l => Ok (Some (TString, GStr (map Z.to_N l)))
           | _ => Err
           end
       | TTime => match o with RTime z => Ok (Some (TTime, GTime z)) | RStr _ => Unsup | _ => Err end
       | TSlice et =>
           if (match t, et with TSlice _, TInt KUint8 => true | _, _ => false end) then       (* ByteSliceConverter *)
             match o with
-            | RBytes l => Ok (Some (TSlice (TInt KUint8), GSlice (map GInt l)))
+            | RBytes isnil l => Ok (Some (TSlice (TInt KUint8), if isnil then GNil else GSlice (map GInt l)))
             | RStr s => Ok (Some (TSlice (TInt KUint8), GSlice (bytes_of_str s)))
             | _ => Err
             end
           else if (match t, et with TSlice _, TFloat64 => true | _, _ => false end) then     (* FloatSliceConverter *)
             match o with
-            | RFloats l => Ok (Some (TSlice TFloat64, GSlice (map GFloat l)))
+            | RFloats isnil l => Ok (Some (TSlice TFloat64, if isnil then GNil else GSlice (map GFloat l)))
             | _ => Err
             end
           else
@@ -435,6 +440,14 @@ Section To.
           match o with
           | RNil => Ok None
           | RMap m => do gs <- entries et m ;; Ok (Some (TMap et, GMap gs))
+          | _ => Err
+          end
+      | TPtr TTime =>                                        (* StructConverter for *time.Time: no exported fields *)
+          match o with
+          | RProxy pt c p => Ok (Some (pt, GRef c p))
+          | RProxyNil pt => Ok (Some (pt, GNil))
+          | RProxyOwn pt v => Ok (Some (pt, GBox v))
+          | RMap _ => Ok (Some (TPtr TTime, GBox (GTime 0)))
           | _ => Err
           end
       | TPtr (TStruct sid sfs) =>                            (* StructConverter for the pointer type *)
@@ -483,11 +496,12 @@ Section To.
             match field_index fs k 0 with
             | None => go r acc
             | Some (i, ft) =>
-                let ft' := match ft with TStruct _ _ => TPtr ft | _ => ft end in      (* newGoField *)
+                let ft' := match ft with TStruct _ _ | TTime => TPtr ft | _ => ft end in      (* newGoField *)
                 do r1 <- to_go f true ft' x ;;
                 match r1 with
                 | None => Panic                                                     (* f.Set(reflect.ValueOf(nil)) *)
-                | Some (dt, v) => if assignable ft dt then go r (set_nth acc i v) else Panic
+                | Some (dt, v) => if assignable ft dt
+                                  then go r (set_nth acc i (match ft with TIface => GDyn dt v | _ => v end)) else Panic
                 end
             end
         end in
@@ -516,7 +530,7 @@ Definition get_attr (h : heap) (o : robj) (name : str) : res robj :=
       | Some (i, ft) =>
           match nth_error vs i with
           | Some v => match ft with
-                      | TStruct _ _ => Ok (RProxyOwn (TPtr ft) v)
+                      | TStruct _ _ | TTime => Ok (RProxyOwn (TPtr ft) v)
                       | _ => from_go true ft v
                       end
           | None => Panic
@@ -533,7 +547,7 @@ Definition set_attr (fuel : nat) (h : heap) (o : robj) (name : str) (x : robj) :
       match field_index (struct_fields (under pt)) name 0 with
       | None => Err
       | Some (i, ft) =>
-          let ft' := match ft with TStruct _ _ => TPtr ft | _ => ft end in
+          let ft' := match ft with TStruct _ _ | TTime => TPtr ft | _ => ft end in
           do r <- to_go h fuel true ft' x ;;
           match r with
           | None => match heap_set h c (p ++ [i]) (zero ft) with Some h' => Ok h' | None => Panic end   (* SetZero *)
@@ -550,7 +564,7 @@ Definition set_attr (fuel : nat) (h : heap) (o : robj) (name : str) (x : robj) :
       match field_index (struct_fields (under pt)) name 0 with
       | None => Err
       | Some (i, ft) =>
-          let ft' := match ft with TStruct _ _ => TPtr ft | _ => ft end in
+          let ft' := match ft with TStruct _ _ | TTime => TPtr ft | _ => ft end in
           do r <- to_go h fuel true ft' x ;;
           match r with
           | None => Ok h
@@ -599,4 +613,104 @@ Fixpoint no_named (t : gotype) : bool :=
   | TStruct _ fs => (fix go (l : list (str * gotype)) : bool :=
                        match l with [] => true | (_, ft) :: r => no_named ft && go r end) fs
   | _ => true
+  end.
+
+(* ---------- a small script language for the check: what the harness evaluates on both sides ---------- *)
+Inductive sexpr :=
+| XLit (o : robj)                      (* a literal: nil, bool, int, float, string, list, map, byte(n), byte_slice, float_slice *)
+| XGlobal (i : nat)                    (* g<i>: a Go value given with WithGlobal *)
+| XCell (i : nat)                      (* c<i>: a pointer to the struct in heap cell i, given with WithGlobal *)
+| XAttr (e : sexpr) (name : str)
+| XIndex (e : sexpr) (i : nat)         (* e[i] on a list *)
+| XList (l : list sexpr) | XMap (m : list (str * sexpr)).
+
+Inductive script :=
+| SExpr (e : sexpr)
+| SSet (target : sexpr) (name : str) (rhs : sexpr)      (* target.name = rhs ; target.name *)
+| SCall (params : list gotype) (args : list sexpr)      (* a method of the receiver zoo, called with args *)
+| SRet (t : gotype) (v : goval).                        (* a method of the receiver zoo returning v : t *)
+
+Inductive outc := OOk | OErr | OPanic | OEscaped | OUnsup.
+Record result := { r_out : outc; r_obj : option robj; r_heap : heap; r_got : list (gotype * goval) }.
+
+Fixpoint eval (h : heap) (cells : list gotype) (globs : list robj) (e : sexpr) {struct e} : res robj :=
+  match e with
+  | XLit o => Ok o
+  | XGlobal i => match nth_error globs i with Some o => Ok o | None => Err end
+  | XCell i => match nth_error cells i with Some t => Ok (RProxy (TPtr t) i []) | None => Err end
+  | XAttr e' n => do o <- eval h cells globs e' ;; get_attr h o n
+  | XIndex e' i => do o <- eval h cells globs e' ;;
+                   match o with RList l => match nth_error l i with Some x => Ok x | None => Err end | _ => Err end
+  | XList l =>
+      do os <- (fix go (l : list sexpr) : res (list robj) :=
+                  match l with [] => Ok [] | x :: r => do o <- eval h cells globs x ;; do os <- go r ;; Ok (o :: os) end) l ;;
+      Ok (RList os)
+  | XMap m =>
+      do os <- (fix go (m : list (str * sexpr)) : res (list (str * robj)) :=
+                  match m with [] => Ok [] | (k, x) :: r => do o <- eval h cells globs x ;; do os <- go r ;; Ok ((k, o) :: os) end) m ;;
+      Ok (RMap os)
+  end.
+
+Fixpoint eval_all (h : heap) (cells : list gotype) (globs : list robj) (l : list sexpr) : res (list robj) :=
+  match l with
+  | [] => Ok []
+  | x :: r => do o <- eval h cells globs x ;; do os <- eval_all h cells globs r ;; Ok (o :: os)
+  end.
+
+Fixpoint convert_globals (gs : list (option (gotype * goval))) : res (list robj) :=
+  match gs with
+  | [] => Ok []
+  | g :: r => do o <- from_global g ;; do os <- convert_globals r ;; Ok (o :: os)
+  end.
+
+Definition outc_of {A} (r : res A) : outc :=
+  match r with Ok _ => OOk | Err => OErr | Panic => OPanic | Unsup => OUnsup end.
+
+Definition fuel0 : nat := 40.
+
+Definition run_case (cells : list gotype) (h : heap) (gs : list (option (gotype * goval))) (s : script) : result :=
+  match convert_globals gs with
+  | Panic => {| r_out := OEscaped; r_obj := None; r_heap := h; r_got := [] |}      (* vm.New: before any script code runs *)
+  | Err => {| r_out := OEscaped; r_obj := None; r_heap := h; r_got := [] |}        (* vm.New panics with the error *)
+  | Unsup => {| r_out := OUnsup; r_obj := None; r_heap := h; r_got := [] |}
+  | Ok globs =>
+      match s with
+      | SExpr e =>
+          let r := eval h cells globs e in
+          {| r_out := outc_of r; r_obj := match r with Ok o => Some o | _ => None end; r_heap := h; r_got := [] |}
+      | SSet target n rhs =>
+          match eval h cells globs target with
+          | Ok t =>
+              match eval h cells globs rhs with
+              | Ok x =>
+                  match set_attr fuel0 h t n x with
+                  | Ok h' =>
+                      let r := get_attr h' t n in
+                      {| r_out := outc_of r; r_obj := match r with Ok o => Some o | _ => None end; r_heap := h'; r_got := [] |}
+                  | r => {| r_out := outc_of r; r_obj := None; r_heap := h; r_got := [] |}
+                  end
+              | r => {| r_out := outc_of r; r_obj := None; r_heap := h; r_got := [] |}
+              end
+          | r => {| r_out := outc_of r; r_obj := None; r_heap := h; r_got := [] |}
+          end
+      | SCall params args =>
+          match eval_all h cells globs args with
+          | Ok os =>
+              match call_args fuel0 h params os with
+              | Ok gvs =>
+                  {| r_out := OOk; r_obj := Some RNil; r_heap := h;
+                     r_got := combine (map (fun pg => match fst pg, snd pg with
+                                                      | TIface, GDyn dt _ => dt
+                                                      | pt, _ => pt end) (combine params gvs))
+                                      (map (fun pg => match fst pg, snd pg with
+                                                      | TIface, GDyn _ v => v
+                                                      | _, v => v end) (combine params gvs)) |}
+              | r => {| r_out := outc_of r; r_obj := None; r_heap := h; r_got := [] |}
+              end
+          | r => {| r_out := outc_of r; r_obj := None; r_heap := h; r_got := [] |}
+          end
+      | SRet t v =>
+          let r := from_go true t v in
+          {| r_out := outc_of r; r_obj := match r with Ok o => Some o | _ => None end; r_heap := h; r_got := [] |}
+      end
   end.
